@@ -1,6 +1,7 @@
 package main
 
 import (
+	"fmt"
 	"go/types"
 
 	"golang.org/x/tools/go/ssa"
@@ -15,6 +16,8 @@ var modelNames = map[string]bool{
 	"strings.Compare": true, "strings.EqualFold": false,
 	"(time.Time).Before": true, "(time.Time).After": true, "(time.Time).Equal": true, "(time.Time).Compare": true,
 	"(time.Time).IsZero": false,
+	"(time.Time).Add": true, "(time.Time).Sub": true,
+	"(time.Duration).Seconds": true,
 	"cmp.Compare":        true,
 	"sync.NewCond":       true,
 	"fmt.Errorf":         true, "errors.New": true,
@@ -94,6 +97,23 @@ func (E *Engine) model(fr *Frame, st *State, name string, fn *ssa.Function, args
 			}
 		}
 		return r, true
+	case "(time.Time).Add":
+		// the instant moves by d (saturation at the ends of the representable range is ignored)
+		r := tb.UF("time$add", t(0).sort, t(0), t(1))
+		ax := tb.Eq(E.timeKey(r), tb.Arith("+", E.timeKey(t(0)), t(1)))
+		if r.bound {
+			x, d := tb.BVar("t", t(0).sort), tb.BVar("d", SInt)
+			rr := tb.UF("time$add", t(0).sort, x, d)
+			tb.AddAxiom("time$add", tb.Forall([]*Term{x, d}, tb.Eq(E.timeKey(rr), tb.Arith("+", E.timeKey(x), d))), "time$add")
+		} else {
+			tb.AddTermAxiom(fmt.Sprintf("time$add#%d", r.id), ax, r)
+		}
+		return r, true
+	case "(time.Duration).Seconds":
+		// exact in the reals (float64 rounding of very long durations is ignored)
+		return tb.App("/", SReal, tb.App("to_real", SReal, t(0)), tb.Real("1000000000.0")), true
+	case "(time.Time).Sub":
+		return tb.Arith("-", E.timeKey(t(0)), E.timeKey(t(1))), true
 	case "(time.Time).Before":
 		return tb.Cmp("<", E.timeKey(t(0)), E.timeKey(t(1))), true
 	case "(time.Time).After":
